@@ -839,9 +839,11 @@ fn line_vector(p1: Point<F26Dot6>, p2: Point<F26Dot6>, is_parallel: bool) -> Poi
     } else if !is_parallel {
         // Perform a counter-clockwise rotation by 90 degrees to form a
         // perpendicular line.
+        // The difference of two point coordinates is font controlled (SCFS, SHPIX, ... can
+        // place a point anywhere) and may be i32::MIN.
         let c = b;
         b = a;
-        a = -c;
+        a = c.wrapping_neg();
     }
     math::normalize14(a, b)
 }
@@ -910,6 +912,16 @@ mod tests {
         let y = engine.value_stack.pop().unwrap();
         let x = engine.value_stack.pop().unwrap();
         assert_eq!(Point::new(x, y), Y_AXIS);
+    }
+
+    /// A perpendicular line vector through two points whose y coordinates
+    /// differ by i32::MIN must not overflow on negation.
+    #[test]
+    fn line_vector_perpendicular_extreme_difference() {
+        let p1 = Point::new(0, i32::MIN).map(F26Dot6::from_bits);
+        let p2 = Point::new(0, 0).map(F26Dot6::from_bits);
+        let v = super::line_vector(p1, p2, false);
+        assert_eq!(v, math::normalize14(i32::MIN, 0));
     }
 
     #[test]
